@@ -4,6 +4,7 @@
 // order so that window offsets up to 56 are reached; (c) sparse-only smoke cases for lg_k 20 and 26.
 // (d) row-clustered coupon sets (narrow band of rows + one far outlier) so that the image's pair coder sees
 // row deltas of 255/256/257/.../512+ Golomb units, in all four table-bearing flavors.
+// (e) windowed flavors at lg_k 20 (quick) and 20-22 (thorough) on both sides of C = m * 2^32/1000 (32-bit product wrap).
 // Oracle: independent model = set of (row, col) pairs derived from the reference MurmurHash3.
 #include "vf/c05_cpc.hpp"
 
@@ -328,8 +329,114 @@ static void big_sparse(Rng& r, uint8_t lg_k) {
   count(std::string("big_sparse_lgk") + std::to_string(lg_k));
 }
 
+// ---------------------------------------------------------------- (e) windowed flavors at lg_k 20..22
+// Arithmetic on (k, C) must not be done in 32 bits: 1000*C passes 2^32 at C = 4 294 968, 2375*k at lg_k 21.
+// A simulated stream (cell (row, col) present with probability 1 - exp(-lambda / 2^(col+1))) is fed column by
+// column with the sparse high columns sprinkled in, and the sketch is observed and round-tripped in the
+// hybrid and pinned flavors, just after becoming sliding, and on both sides of every multiple of 2^32/1000.
+static void big_windowed(Rng& r, uint8_t lg_k, double final_ratio, bool light) {
+  Live L;
+  L.seed = DEFAULT_SEED;
+  L.m = Model(lg_k);
+  L.sk.reset(new cpc_sketch(lg_k, L.seed));
+  const uint64_t k = uint64_t(1) << lg_k;
+  const uint64_t target = static_cast<uint64_t>(final_ratio * double(k));
+  std::vector<uint64_t> cps;
+  if (!light) { cps.push_back(3 * k / 10); cps.push_back(12 * k / 10); cps.push_back(23 * k / 10); }
+  cps.push_back(27 * k / 8 + k / 16);
+  for (uint64_t mlt = 1;; ++mlt) {
+    const uint64_t c0 = static_cast<uint64_t>((mlt << 32) / 1000);       // last C with 1000*C < mlt*2^32
+    if (c0 + 1 > target) break;
+    if (c0 > 27 * k / 8) { cps.push_back(c0); cps.push_back(c0 + 1); }
+  }
+  cps.push_back(target);
+  std::sort(cps.begin(), cps.end()); cps.erase(std::unique(cps.begin(), cps.end()), cps.end());
+  const double lambda = std::exp2(final_ratio - 1.33 + 1.0);
+  const unsigned J0 = static_cast<unsigned>(std::floor(std::log2(lambda))) + 3;
+  describe("big-windowed lg_k=" + std::to_string(lg_k) + " target_C=" + std::to_string(target) + " lambda=" + str(lambda) + " checkpoints=" + std::to_string(cps.size()));
+  // the sparse high columns, by skip sampling
+  std::vector<uint32_t> late;
+  double dense_expected = 0;
+  for (unsigned col = 0; col < J0; ++col) dense_expected += double(k) * (1 - std::exp(-lambda / std::ldexp(1.0, col + 1)));
+  for (unsigned col = J0; col < J0 + 26 && col < 64; ++col) {
+    const double p = 1 - std::exp(-lambda / std::ldexp(1.0, col + 1));
+    if (p * double(k) < 0.01) break;
+    double pos = 0;
+    for (;;) { pos += std::floor(std::log(1.0 - r.unit()) / std::log(1.0 - p)) + 1; if (pos > double(k)) break; late.push_back((static_cast<uint32_t>(pos - 1) << 6) | col); }
+  }
+  r.shuffle(late);
+  const uint64_t sprinkle = std::max<uint64_t>(1, static_cast<uint64_t>(dense_expected / double(late.size() + 1)));
+  size_t ci = 0, li = 0; uint64_t fed = 0; bool done = false;
+  auto give = [&](uint32_t rc) {
+    L.sk->row_col_update(rc);
+    ++fed;
+    if (L.m.add_rc(rc) && ci < cps.size() && L.m.C == cps[ci]) {
+      ++ci;
+      ObsOpt o; o.expect_merged = 0; o.check_bounds = false;
+      const std::string ctx = "big C=" + std::to_string(L.m.C);
+      observe(*L.sk, L.m, "synthetic", ctx, o);
+      std::unique_ptr<cpc_sketch> d;
+      roundtrip(*L.sk, L.m, L.seed, "synthetic", ctx, r.chance(0.3) ? &d : nullptr, static_cast<int>(r.below(3)));
+      if (d) { L.sk = std::move(d); count("continued_on_deserialized"); }
+      count("big_windowed_checkpoints");
+      if (ci == cps.size()) done = true;
+    }
+  };
+  for (unsigned col = 0; col < J0 && !done; ++col) {
+    const double p = 1 - std::exp(-lambda / std::ldexp(1.0, col + 1));
+    // rows in a scattered order (multiplicative permutation): the cells still missing in a column are then spread
+    // over all rows as in a real stream (filling rows 0,1,2,... would leave one contiguous block of surprising zeros)
+    const uint32_t mul = (static_cast<uint32_t>(0.6180339887 * double(k)) | 1u), add = static_cast<uint32_t>(r.below(k));
+    for (uint32_t i = 0; i < k && !done; ++i) {
+      if (!r.chance(p)) continue;
+      const uint32_t row = static_cast<uint32_t>((uint64_t(i) * mul + add) & (k - 1));
+      give((row << 6) | col);
+      if (fed % sprinkle == 0 && li < late.size() && !done) give(late[li++]);
+    }
+  }
+  VF_CHECK(done, "harness|big-windowed-target-not-reached", G().cur_desc + " C=" + std::to_string(L.m.C));
+  count("big_windowed_lgk" + std::to_string(lg_k));
+  count("synthetic_coupons", fed);
+}
+
+// 16 M distinct hashed updates at lg_k 20 (C ~ 4.47 M, sliding, beyond 2^32/1000)
+static void big_hashed(Rng& r) {
+  Live L;
+  const uint8_t lg_k = 20;
+  L.seed = DEFAULT_SEED;
+  L.m = Model(lg_k);
+  L.sk.reset(new cpc_sketch(lg_k, L.seed));
+  const uint64_t n = 16000000, base = r.next();
+  describe("big-hashed lg_k=20 n=16000000 base=" + std::to_string(base));
+  const uint64_t c0 = (uint64_t(1) << 32) / 1000;
+  bool seen_boundary = false;
+  for (uint64_t i = 0; i < n; ++i) {
+    const uint64_t v = base + i;
+    L.sk->update(v);
+    const bool novel = L.m.add_rc(ref_row_col(ref_hash_u64(v, L.seed), lg_k));
+    if ((novel && (L.m.C == c0 || L.m.C == c0 + 1)) || i + 1 == n) {
+      if (novel && L.m.C == c0 + 1) seen_boundary = true;
+      ObsOpt o; o.expect_merged = 0;
+      observe(*L.sk, L.m, "stream", "big-hashed i=" + std::to_string(i), o);
+      roundtrip(*L.sk, L.m, L.seed, "stream", "big-hashed i=" + std::to_string(i));
+    }
+  }
+  if (seen_boundary) count("big_hashed_lgk20_16M");
+  count("updates", n);
+}
+
 void run_case(uint64_t idx, Rng& r) {
   const bool T = G().thorough();
+  if (idx == 21 || (T && (idx == 29 || idx == 37 || idx == 45 || idx == 53))) {   // case 21 (~2-3 CPU-s under ASan) also runs in the quick tier
+    try {
+      if (idx == 21) big_windowed(r, 20, 4.105, true);           // just past C = 2^32/1000 (C/k = 4.096)
+      else if (idx == 29) big_windowed(r, 20, 6.6, false);
+      else if (idx == 37) big_windowed(r, 21, 4.45, false);      // passes 2*2^32/1000
+      else if (idx == 45) big_windowed(r, 22, 4.2, false);       // passes 4*2^32/1000
+      else big_hashed(r);
+    } catch (const std::exception& e) { fail("big|threw", G().cur_desc + " what=" + e.what()); }
+    return;
+  }
   if (idx == 5) { big_sparse(r, 20); return; }
   if (T && idx == 11) { big_sparse(r, 26); return; }
   if (T && idx % 1500 == 17) { big_sparse(r, static_cast<uint8_t>(r.range(17, 22))); return; }
